@@ -42,18 +42,12 @@ def parse_steps(s):
     return out
 
 
-def env_of(proto, d):
-    return {"C06_PROTO": proto, "C06_DIR": d}
-
-
 def run(ctx):
     rnd = random.Random(ctx.seed)
-    # ---- 1. the model: safety for the six configurations, liveness for pushAndPull ----
+    # ---- 1. the model: safety for the six configurations (one TLC run), liveness for pushAndPull ----
     cfg = "MC_Replication.cfg" if ctx.quick() else "MC_Replication_thorough.cfg"
-    for proto in PROTOS:
-        for d in DIRS:
-            model_check(ctx, SPEC, "MC_Replication", cfg, timeout=3000, env=env_of(proto, d))
-        model_check(ctx, SPEC, "MC_Replication", "Live_Replication.cfg", timeout=3000, env=env_of(proto, "pushAndPull"), coverage=False)
+    model_check(ctx, SPEC, "MC_Replication", cfg, timeout=6000)
+    model_check(ctx, SPEC, "MC_Replication", "Live_Replication.cfg", timeout=3000, env={"C06_DIR": "pushAndPull"}, coverage=False)
     ctx.cov["exhaustive"] = True
 
     # ---- 2. behaviours ----
@@ -62,24 +56,23 @@ def run(ctx):
     nbeh = 1 if ctx.quick() else 6
     ncat = 2 if ctx.quick() else len(CATALOGUE)
     names = sorted(CATALOGUE)
+    allb = behaviours(ctx, SPEC, "MC_Replication", "Beh_Replication.cfg", env={"C06_DIR": "pushAndPull"}, timeout=1800)
+    sims = behaviours(ctx, SPEC, "MC_Replication", "Sim_Replication.cfg", num=120 if ctx.quick() else 900, depth=60,
+                      env={"C06_DIR": "pushAndPull"}, timeout=1800)
     for proto in PROTOS:
-        allb = behaviours(ctx, SPEC, "MC_Replication", "Beh_Replication.cfg", env=env_of(proto, "pushAndPull"), timeout=1200)
-        sims = behaviours(ctx, SPEC, "MC_Replication", "Sim_Replication.cfg", num=60 if ctx.quick() else 400, depth=60,
-                          env=env_of(proto, "pushAndPull"), timeout=1200)
-        allb = [b for b in allb if useful(b["steps"])]
-        sims = [b for b in sims if useful(b["steps"])]
-        rnd.shuffle(allb)
-        rnd.shuffle(sims)
+        pb = [b for b in allb if b["proto"] == proto and useful(b["steps"])]
+        ps = [b for b in sims if b["proto"] == proto and useful(b["steps"])]
+        rnd.shuffle(pb)
+        rnd.shuffle(ps)
         for d in DIRS:
-            pick = rnd.sample(names, ncat)
-            for n in pick:
+            for n in rnd.sample(names, ncat):
                 behs.append(("cat:" + n, proto, d, parse_steps(CATALOGUE[n])))
-            for b in allb[:nbeh]:
+            for b in pb[:nbeh]:
                 behs.append(("beh", proto, d, clean(b["steps"])))
-            allb = allb[nbeh:] + allb[:nbeh]
-            for b in sims[:nsim]:
+            pb = pb[nbeh:] + pb[:nbeh]
+            for b in ps[:nsim]:
                 behs.append(("sim", proto, d, clean(b["steps"])))
-            sims = sims[nsim:] + sims[:nsim]
+            ps = ps[nsim:] + ps[:nsim]
     ctx.cov["rule"] = ("scenario = environment-level history (edits / deletes / resurrections on either peer, Start, Wait = caught-up point, Stop, restart) "
                        "for one of {v3, v4} x {pushAndPull, push, pull}: fixed catalogue of conflict shapes + TLC PhaseSpec behaviours (all histories of 7 steps, 1 doc) "
                        "+ TLC simulations (14 steps, 2 docs); non-trivial = has a caught-up point after at least one replicated write")
@@ -99,6 +92,9 @@ def useful(steps):
 
 
 def clean(steps):
+    steps = list(steps)
+    while steps and steps[-1]["a"] != "Wait":      # what follows the last caught-up point is not observed
+        steps.pop()
     out = []
     for s in steps:
         if s["a"] in ("Synced",):
@@ -227,13 +223,13 @@ class Conv:
             o["rest"] = {"code": 0, "id": [], "body": 0, "del": False}
         return o
 
-    def lines(self, rows, idx):
+    def lines(self, rows, idx, direction):
         res = []
         revs = []
         if self.proto == "v3":
             for (d, rid), (par, body, dl) in sorted(self.table.items()):
                 revs.append([d] + self.rev(rid) + self.rev(par) + [body, dl])
-        res.append({"a": "Reset", "beh": idx, "revs": revs})
+        res.append({"a": "Reset", "beh": idx, "proto": self.proto, "dir": direction, "revs": revs})
         for r in rows[1:]:
             a = r["a"]
             if a in ("Edit", "Delete", "Resurrect"):
@@ -262,11 +258,11 @@ DEV_WHAT = {
 }
 
 
-def validate_group(ctx, behs, per, proto, d, idxs, tag):
-    """P (and C) validation of the scenarios idxs (all of configuration proto/d).
+def validate_group(ctx, behs, per, idxs, tag):
+    """P (and C) validation of the scenarios idxs.
     returns (named deviations [(scenario, doc, class)], hard violations [(scenario, invariant, event, state)], #conformant)"""
-    chunks = {i: Conv(per[i], proto).lines(per[i], i) for i in idxs}
-    tr = os.path.join(ctx.scratch, "c06-%s-%s-%s.ndjson" % (tag, proto, d))
+    chunks = {i: Conv(per[i], behs[i][1]).lines(per[i], i, behs[i][2]) for i in idxs}
+    tr = os.path.join(ctx.scratch, "c06-%s.ndjson" % tag)
 
     def emit(sel):
         lines, start = [], {}
@@ -283,7 +279,7 @@ def validate_group(ctx, behs, per, proto, d, idxs, tag):
     todo = list(idxs)
     while todo:          # pass P; a scenario with a hard violation is set aside and the rest validated again
         lines, start = emit(todo)
-        vp = validate(ctx, SPEC, "Trace_Replication", "Trace_Replication_P.cfg", tr, env=env_of(proto, d), tag="P-%s-%s-%s" % (tag, proto, d))
+        vp = validate(ctx, SPEC, "Trace_Replication", "Trace_Replication_P.cfg", tr, tag="P-%s" % tag)
         if vp.inv:
             ln = (vp.line or 2) - 1          # the state after consuming line l-1
             bi = owner(todo, start, ln)
@@ -300,18 +296,18 @@ def validate_group(ctx, behs, per, proto, d, idxs, tag):
     conform = 0
     if todo:
         lines, start = emit(todo)
-        vc = validate(ctx, SPEC, "Trace_Replication", "Trace_Replication_C.cfg", tr, env=env_of(proto, d), tag="C-%s-%s-%s" % (tag, proto, d), timeout=1800)
+        vc = validate(ctx, SPEC, "Trace_Replication", "Trace_Replication_C.cfg", tr, tag="C-%s" % tag, timeout=2400)
         if vc.inv or not vc.accepted:
             ctx.cov["nonconformance"] += 1
             at = lines[vc.line - 1] if vc.line and vc.line <= len(lines) else None
-            ctx.notes.append("pass C (%s %s) rejected at line %s (%s) scenario %s: %s" % (
-                proto, d, vc.line, vc.inv, scen(behs[owner(todo, start, vc.line or 1)]) if vc.line else None, json.dumps(at)[:240]))
+            ctx.notes.append("pass C rejected at line %s (%s) scenario %s: %s" % (
+                vc.line, vc.inv, scen(behs[owner(todo, start, vc.line or 1)]) if vc.line else None, json.dumps(at)[:240]))
         else:
             conform = len(todo)
     return devs, hard, conform
 
 
-def verdicts(ctx, behs, rows, confirm):
+def verdicts(ctx, behs, rows, confirm, tag="v"):
     per = split(rows)
     ctx.cov["evaluations"] += len(behs)
     nontriv, nsync, nrerun = 0, 0, 0
@@ -328,16 +324,8 @@ def verdicts(ctx, behs, rows, confirm):
         k = sorted(per)[len(per) // 2]
         ctx.sample({"scenario": {"label": behs[k][0], "proto": behs[k][1], "dir": behs[k][2], "steps": " ".join(fmt_step(s) for s in behs[k][3])},
                     "caught_up_points": [{"stats": {a: b for a, b in r["stats"].items() if b}} for r in per[k] if r["a"] == "Sync"][:3]})
-    alldev, allhard = [], []
-    for proto in PROTOS:
-        for d in DIRS:
-            idxs = [i for i in sorted(per) if behs[i][1] == proto and behs[i][2] == d]
-            if not idxs:
-                continue
-            devs, hard, conform = validate_group(ctx, behs, per, proto, d, idxs, "v")
-            ctx.cov["traces_validated_against_impl"] += conform
-            alldev += devs
-            allhard += hard
+    alldev, allhard, conform = validate_group(ctx, behs, per, sorted(per), tag)
+    ctx.cov["traces_validated_against_impl"] += conform
     seen = set()
     for (bi, doc, cls) in alldev:
         key = "Converged@%s:%s" % (behs[bi][1], cls)
@@ -373,7 +361,7 @@ def reproduces(ctx, b, inv):
     per = split(rows)
     hits = 0
     for i in (0, 1):
-        devs, hard, _ = validate_group(ctx, two, per, b[1], b[2], [i], "r%d" % i)
+        devs, hard, _ = validate_group(ctx, two, per, [i], "r%d" % i)
         if any(h[1] == inv for h in hard):
             hits += 1
     return hits == 2
